@@ -543,7 +543,7 @@ class Unit:
                 continue
             names.setdefault(nm, []).append(d)
         for nm, ds in names.items():
-            if len(ds) == 1:
+            if len(ds) == 1 and not self._declared_overloaded(ds[0]):
                 self._reg(ds[0], nm)
             else:
                 # overloads: disambiguate by parameter types
@@ -556,6 +556,24 @@ class Unit:
                         raise ExtractionError('ambiguous C name %s' % n2)
                     used.add(n2)
                     self._reg(d, n2)
+
+    def _declared_overloaded(self, d):
+        """True if the class declares several member functions of this name (whether or not all of them are
+        instantiated): the C name then always carries the parameter types, so that names do not depend on
+        which overloads happen to be used"""
+        ns, cls, dep, pk = self.ctx_of[d['id']]
+        if cls is None or d['kind'] != 'CXXMethodDecl' or d['name'].startswith('operator'):
+            return False
+        rec = self.records.get(cls.key())
+        if rec is None:
+            return False
+        n = 0
+        for c in kids(rec):
+            if c['kind'] == 'CXXMethodDecl' and c.get('name') == d['name']:
+                n += 1
+            elif c['kind'] == 'FunctionTemplateDecl' and c.get('name') == d['name']:
+                n += 1
+        return n > 1
 
     def _reg(self, d, nm):
         fi = FnInfo(d, nm)
@@ -1316,6 +1334,10 @@ class ExprMixin:
                 return self.expr(ks[1], discard)
             a = self.expr(ks[0])
             b = self.expr(ks[1])
+            if op in ('*', '/') and self.ty(n).name == 'double':
+                # scalar multiplication / division: a macro, so that a proof may hide them behind an
+                # uninterpreted function (BS_OPAQUE_MUL); by default BS_MUL(a,b) is (a)*(b)
+                return '%s(%s, %s)' % ('BS_MUL' if op == '*' else 'BS_DIV', a, b)
             return '(%s %s %s)' % (a, op, b)
         if k == 'CompoundAssignOperator':
             lv = self.lval(ks[0])
@@ -1323,7 +1345,10 @@ class ExprMixin:
             self.note_write(lv)
             op = n['opcode']
             # written out: CBMC's rational type has no compound assignment guarantee
-            txt = '%s = %s %s %s' % (lv, lv, op[:-1], self.wrap(rv))
+            if op in ('*=', '/=') and self.ty(ks[0]).name == 'double':
+                txt = '%s = %s(%s, %s)' % (lv, 'BS_MUL' if op == '*=' else 'BS_DIV', lv, rv)
+            else:
+                txt = '%s = %s %s %s' % (lv, lv, op[:-1], self.wrap(rv))
             if discard:
                 self.emit(txt + ';')
                 return ''
